@@ -546,6 +546,223 @@ def oracle_pair(R: Run, ns, case, dtype, data, attr_nd, dst_nd, sched, seed, lea
     return whole, chunked
 
 
+# ------------------------------------------------------------------ zoom-in x sub-pixel shift x chunk boundaries
+ZOOMS = [1, 2, 3, 7, 11, 16, 32, 64]
+K17 = "chunked-differs-from-whole:translation-snapped-at-extreme-zoom"
+K10 = "chunked-differs-from-whole:centre-exactly-on-source-edge"
+
+
+def zoom_shifts(rng, N):
+    """sub-pixel misalignment as a fraction of a SOURCE pixel"""
+    pool = [0.0] + [sg * 2.0 ** -k for k in range(1, 11) for sg in (1, -1)] + [0.04, -0.04, 0.049, -0.049, 0.0009, -0.0009]
+    half = 1.0 / (2 * N)
+    pool += [half + d for d in (1e-4, -1e-4, 2.0 ** -12, -(2.0 ** -12))] + [-(half + 1e-4), -(half - 1e-4)]
+    return rng.choice(pool)
+
+
+def gen_zoom(rng, N=None, shift=None):
+    """same CRS, no rotation: destination pixels N times smaller than the source pixels, grids misaligned by a
+    small fraction of a source pixel, destination window laid over an interior source-chunk boundary"""
+    N = N or rng.choice(ZOOMS)
+    sh, sw = rng.randint(2, 5), rng.randint(2, 5)
+
+    def chunks(n):
+        if rng.random() < 0.5:
+            return (1,) * n
+        c = compositions(rng, n)
+        return c if len(c) > 1 else (1, n - 1)
+
+    sy, sx = chunks(sh), chunks(sw)
+    bx = rng.choice(list(np.cumsum(sx)[:-1]))  # interior chunk boundary (source pixel index)
+    by = rng.choice(list(np.cumsum(sy)[:-1]))
+    mx, my = rng.randint(1, int(bx)), rng.randint(1, int(by))  # window starts m source pixels before it
+    if N >= 32:
+        mx = my = 1
+    fx = zoom_shifts(rng, N) if shift is None else shift
+    fy = zoom_shifts(rng, N) if shift is None else 0.0
+    X0, Y0 = float(N * rng.randint(-3, 3)), float(N * rng.randint(-3, 3))
+    S = (F(N), F(0), F(X0), F(0), F(N), F(Y0))
+    after = max(2, N // 4) + rng.randint(0, 3)
+    dw, dh = mx * N + after, (my * N + after if N <= 64 else 2)
+    Dc = X0 + float((bx - mx) * N) + fx * N
+    Df = Y0 + float((by - my) * N) + fy * N if N <= 64 else Y0 + N / 2
+    D = (F(1), F(0), F(Dc), F(0), F(1), F(Df))
+    pick = lambda m: rng.choice([N, m * N, max(1, N // 2), rng.randint(1, m * N + after)])  # noqa: E731
+    return {"sh": sh, "sw": sw, "dh": dh, "dw": dw, "S": S, "D": D, "A": amul(ainv(S), D), "sy": sy, "sx": sx,
+            "cy": pick(my) if N <= 64 else 2, "cx": pick(mx), "N": N, "shift": [fx, fy]}
+
+
+def axis_exact(a, c, n, size):
+    """per destination index: sampled source index (-1 outside), ambiguous (float rounding could move it), on x=0"""
+    idx, amb, ez = np.full(n, -1), np.zeros(n, bool), np.zeros(n, bool)
+    for x in range(n):
+        p = a * F(2 * x + 1, 2) + c
+        fl = math.floor(p)
+        if 0 <= p < size:
+            idx[x] = fl
+        amb[x] = abs(p - round(p)) < F(1, 10**9) or abs(p - size) < F(1, 10**9)
+        ez[x] = p == 0
+    return idx, amb, ez
+
+
+def zoom_one(R: Run, ns, cj):
+    case = case_from_json(cj["case"])
+    dtype, attr = cj["dtype"], cj["attr"]
+    N, (fx, fy) = cj["case"]["N"], cj["case"]["shift"]
+    sig = f"zoom|N={N}|{'aligned' if fx == 0 and fy == 0 else 'shift<1e-3' if max(abs(fx), abs(fy)) < 1e-3 else 'shift<0.05' if max(abs(fx), abs(fy)) < 0.05 else 'shift'}"
+    data = ((np.arange(case["sh"] * case["sw"]).reshape(case["sh"], case["sw"]) * 7) % 97 + 1).astype(dtype)
+    try:
+        sg, dg, _ = geoboxes(ns, case)
+        whole = ns.xr_reproject(ns.wrap_xr(data, sg, nodata=attr), dg, resampling="nearest").values
+        lazy = ns.xr_reproject(ns.wrap_xr(ns.da.from_array(data, chunks=(case["sy"], case["sx"])), sg, nodata=attr), dg,
+                               resampling="nearest", chunks=(case["cy"], case["cx"]))
+        chunked = compute(ns, lazy.data, cj["sched"], cj["sseed"])
+    except Exception as e:  # pylint: disable=broad-except
+        R.oracle(False, "reproject-raises", cj, f"xr_reproject / compute raised {type(e).__name__}: {e}", sig=sig)
+        return False
+    a, _, c, _, e, f = case["A"]
+    ix, ambx, ezx = axis_exact(a, c, case["dw"], case["sw"])
+    iy, amby, ezy = axis_exact(e, f, case["dh"], case["sh"])
+    fv = spec_fill(dtype, attr, attr)
+    ref = np.full((case["dh"], case["dw"]), fv, dtype=dtype)
+    rows, cols = np.nonzero(iy >= 0)[0], np.nonzero(ix >= 0)[0]
+    if len(rows) and len(cols):
+        ref[np.ix_(rows, cols)] = data[np.ix_(iy[rows], ix[cols])]
+    amb = amby[:, None] | ambx[None, :]
+    sure = ~amb & ~(ezy[:, None] | ezx[None, :])
+    ok_shape = chunked.shape == whole.shape == ref.shape
+    R.oracle(ok_shape, "result-shape-differs", cj, f"{chunked.shape} {whole.shape} expected {ref.shape}", sig=sig + "|shape", trivial=True)
+    if not ok_shape:
+        return False
+
+    def neq(x, y):
+        return ~((x == y) | ((x != x) & (y != y)))
+
+    # K17 guard: extreme zoom, translation below snap_affine's 1e-3, differences only right at a source-chunk boundary
+    def near_chunk_boundary(diff):
+        okc = np.zeros(case["dw"], bool)
+        for b in np.cumsum(case["sx"])[:-1]:
+            for x in range(case["dw"]):
+                p = a * F(2 * x + 1, 2) + c
+                if abs(p - int(b)) <= F(1, 1000):  # within snap_affine's translation tolerance (source px) of the boundary
+                    okc[x] = True
+        okr = np.zeros(case["dh"], bool)
+        for b in np.cumsum(case["sy"])[:-1]:
+            for y in range(case["dh"]):
+                p = e * F(2 * y + 1, 2) + f
+                if abs(p - int(b)) <= F(1, 1000):
+                    okr[y] = True
+        return not (diff & ~(okr[:, None] | okc[None, :])).any()
+
+    def route(diff):
+        if N > 500 and max(abs(fx), abs(fy)) < 1e-3 and near_chunk_boundary(diff):
+            return K17
+        return None
+
+    okall = True
+    # chunked vs the exact reference (floor of the exactly mapped centre)
+    d1 = neq(chunked, ref) & sure
+    key = route(d1) or "chunked-differs-from-exact-nearest"
+    what = ""
+    if d1.any():
+        p = tuple(int(i) for i in np.argwhere(d1)[0])
+        what = (f"zoom {N}x, shift ({fx}, {fy}) source px: pixel {p} holds {chunked[p]}, its centre maps into source pixel "
+                f"({iy[p[0]]}, {ix[p[1]]}) = {ref[p]} ({int(d1.sum())} px; src chunks {case['sy']}x{case['sx']}, dst chunks "
+                f"{case['cy']}x{case['cx']})")
+    R.oracle(not d1.any(), key, cj, what, sig=sig + "|exact")
+    okall &= not d1.any()
+    d0 = neq(whole, ref) & sure
+    R.oracle(not d0.any(), "whole-differs-from-exact-nearest", cj,
+             f"in-memory result differs from the exact nearest reference at {int(d0.sum())} px" if d0.any() else "", sig=sig + "|whole")
+    okall &= not d0.any()
+    # chunked vs whole
+    d2 = neq(chunked, whole) & ~amb
+    key = "chunked-differs-from-whole"
+    if d2.any():
+        if not (d2 & ~(ezy[:, None] | ezx[None, :])).any():
+            key = K10
+        else:
+            key = route(d2) or key
+    R.oracle(not d2.any(), key, cj,
+             f"zoom {N}x, shift ({fx}, {fy}) source px: dask-backed differs from numpy-backed at {int(d2.sum())} px, first "
+             f"{tuple(int(i) for i in np.argwhere(d2)[0])}" if d2.any() else "", sig=sig + "|vs-whole")
+    okall &= not d2.any()
+    return okall
+
+
+def zoom_stream(R: Run, ns, rng, n):
+    # deterministic witness of known finding K17 (always in the quick tier)
+    w = {"sh": 4, "sw": 4, "dh": 2, "dw": 2056, "S": (F(2048), F(0), F(0), F(0), F(2048), F(0)),
+         "D": (F(1), F(0), F(2049), F(0), F(1), F(1024)), "sy": (4,), "sx": (2, 2), "cy": 2, "cx": 2048, "N": 2048,
+         "shift": [2.0 ** -11, 0.0]}
+    w["A"] = amul(ainv(w["S"]), w["D"])
+    zoom_one(R, ns, {"kind": "zoom", "case": case_json(w), "dtype": "int16", "attr": -1, "sched": "sync", "sseed": 0})
+    for i in range(n):
+        if i % 25 == 24:
+            case = gen_zoom(rng, N=rng.choice([1024, 2048, 4096]), shift=rng.choice([2.0 ** -11, 0.0009, -0.0009, 0.0, 2.0 ** -13]))
+        else:
+            case = gen_zoom(rng)
+        dtype = rng.choice(["int16", "uint8", "float32", "int32"])
+        attr = rng.choice([None, None, -1 if dtype != "uint8" else 255])
+        zoom_one(R, ns, {"kind": "zoom", "case": case_json(case), "dtype": dtype, "attr": attr,
+                         "sched": rng.choice(["sync", "sync", "threads", "rtopo"]), "sseed": rng.randrange(10**6)})
+
+
+# ------------------------------------------------------------------ long-lived process: CRS churn
+def churn_specs(rng):
+    """endless supply of distinct CRS definitions with a centre (lon, lat) inside their area of use"""
+    utm = [(32600 + z, -177 + 6 * (z - 1), lat) for z in range(1, 61) for lat in (rng.uniform(5, 60),)] + \
+          [(32700 + z, -177 + 6 * (z - 1), -rng.uniform(5, 60)) for z in range(1, 61)]
+    rng.shuffle(utm)
+    for epsg, lon, lat in utm:
+        yield f"EPSG:{epsg}", lon, lat
+    while True:
+        lon, lat = round(rng.uniform(-170, 170), 3), round(rng.uniform(-60, 60), 3)
+        if rng.random() < 0.5:
+            yield (f"+proj=tmerc +lat_0={lat} +lon_0={lon} +k=0.9996 +x_0=500000 +y_0=0 +datum=WGS84 +units=m +no_defs", lon, lat)
+        else:
+            yield f"+proj=laea +lat_0={lat} +lon_0={lon} +x_0=0 +y_0=0 +datum=WGS84 +units=m +no_defs", lon, lat
+
+
+def crs_churn(R: Run, ns, rng, n):
+    """hundreds of scenes, each in a different CRS, in this one process; more distinct CRSs are normalised and used
+    for point transforms in between; garbage collected regularly (ambient caches must not leak between scenes)"""
+    import gc
+
+    import pyproj
+    from odc.geo import CRS
+
+    specs = churn_specs(rng)
+    wgs = "EPSG:4326"
+    for i in range(n):
+        spec, lon, lat = next(specs)
+        fwd = pyproj.Transformer.from_crs(wgs, spec, always_xy=True)
+        cx, cy = fwd.transform(lon, lat)
+        to_geo = i % 3 != 2
+        if to_geo:
+            cj = {"kind": "cross", "scrs": spec, "dcrs": wgs, "sg": [8, 8, 1000.0, cx - 4000, cy + 4000],
+                  "dg": [10, 10, 0.01, lon - 0.05, lat + 0.05]}
+        else:
+            cj = {"kind": "cross", "scrs": wgs, "dcrs": spec, "sg": [8, 8, 0.01, lon - 0.04, lat + 0.04],
+                  "dg": [10, 10, 1000.0, cx - 5000, cy + 5000]}
+        cj.update({"lead": None, "dtype": "int16", "attr_nd": -1, "dst_nd": None, "sy": (4, 4), "sx": (4, 4), "cy": 5, "cx": 5,
+                   "sched": "sync", "sseed": 0, "resampling": "nearest", "scene": i})
+        cross_one(R, ns, cj)
+        # more distinct CRSs in between, each used for one transform (compared with pyproj itself)
+        for _ in range(2):
+            s2, lon2, lat2 = next(specs)
+            try:
+                got = CRS(s2).transformer_to_crs(CRS(wgs))(*pyproj.Transformer.from_crs(wgs, s2, always_xy=True).transform(lon2, lat2))
+                ok = abs(got[0] - lon2) < 1e-6 and abs(got[1] - lat2) < 1e-6
+                R.oracle(ok, "crs-transform-wrong-in-long-lived-process", {"kind": "churn-point", "spec": s2, "lon": lon2, "lat": lat2, "n": i},
+                         f"after {i} scenes: ({lon2}, {lat2}) projected to {s2} and back gives {got}", sig="churn|point", trivial=True)
+            except Exception as e:  # pylint: disable=broad-except
+                R.oracle(False, "crs-transform-wrong-in-long-lived-process", {"kind": "churn-point", "spec": s2, "n": i},
+                         f"{type(e).__name__}: {e}", sig="churn|point")
+        if i % 8 == 7:
+            gc.collect()
+
+
 # ------------------------------------------------------------------ call histories inside one process
 def layout_family(rng, n):
     """chunk layouts of an axis of length n that share the first chunk: regular, irregular, permuted tails"""
@@ -1078,8 +1295,9 @@ def cross_one(R: Run, ns, cj):
     sh, sw, res, lon0, lat0 = cj["sg"]
     dh, dw, dres, X0, Y0 = cj["dg"]
     dtype, attr, dn = cj["dtype"], cj["attr_nd"], cj["dst_nd"]
-    sg = ns.GeoBox((sh, sw), ns.Affine(res, 0, lon0, 0, -res, lat0), "epsg:4326")
-    dg = ns.GeoBox((dh, dw), ns.Affine(dres, 0, X0, 0, -dres, Y0), "epsg:3857")
+    scrs, dcrs = cj.get("scrs", "epsg:4326"), cj.get("dcrs", "epsg:3857")
+    sg = ns.GeoBox((sh, sw), ns.Affine(res, 0, lon0, 0, -res, lat0), scrs)
+    dg = ns.GeoBox((dh, dw), ns.Affine(dres, 0, X0, 0, -dres, Y0), dcrs)
     lead = cj.get("lead")
     base = np.arange(sh * sw).reshape(sh, sw)
     # every source pixel carries its own id (per plane) -> which pixel was sampled is visible
@@ -1087,7 +1305,7 @@ def cross_one(R: Run, ns, cj):
     data = np.stack(src_planes) if lead else src_planes[0]
     ax = 1 if lead else 0
     chunks = ((tuple(lead),) if lead else ()) + (tuple(cj["sy"]), tuple(cj["sx"]))
-    sig = f"cross|{cj['resampling']}|{np.dtype(dtype).kind}|{cj['sched']}" + ("|lead" if lead else "")
+    sig = f"cross|{cj['resampling']}|{np.dtype(dtype).kind}|{cj['sched']}" + ("|lead" if lead else "") + ("|churn" if "scrs" in cj else "")
     try:
         whole = ns.xr_reproject(ns.wrap_xr(data, sg, nodata=attr, axis=ax), dg, resampling=cj["resampling"], dst_nodata=dn).values
         lazy = ns.xr_reproject(ns.wrap_xr(ns.da.from_array(data, chunks=chunks), sg, nodata=attr, axis=ax), dg,
@@ -1105,7 +1323,7 @@ def cross_one(R: Run, ns, cj):
         return False
     cps, wps = planes_of(chunked, lead, None), planes_of(whole, lead, None)
     # exact-ish source position of every destination pixel centre
-    tr = pyproj.Transformer.from_crs("epsg:3857", "epsg:4326", always_xy=True)
+    tr = pyproj.Transformer.from_crs(dcrs, scrs, always_xy=True)
     xs = X0 + (np.arange(dw) + 0.5) * dres
     ys = Y0 - (np.arange(dh) + 0.5) * dres
     XX, YY = np.meshgrid(xs, ys)
@@ -1216,7 +1434,7 @@ def run(R: Run):
 
     # 2. exact stream through the whole pipeline (model == real chunked, model == real in-memory)
     dts = list(DTYPES)
-    for i in range(R.pick(480, 3600)):
+    for i in range(R.pick(400, 3600)):
         rotated = i % 5 == 4
         case = gen_case(rng, rotated=rotated)
         corr_lowlevel(R, ns, rng, case, dts[i % len(dts)], rotated=rotated, inject=False)
@@ -1224,7 +1442,7 @@ def run(R: Run):
         rotated = i % 4 == 3
         case = gen_case(rng, rotated=rotated, small=True)
         corr_lowlevel(R, ns, rng, case, dts[i % len(dts)], rotated=rotated, inject=True)
-    for i in range(R.pick(480, 3600)):
+    for i in range(R.pick(400, 3600)):
         case = gen_case(rng, rotated=(i % 6 == 5))
         corr_xr(R, ns, rng, case, dts[i % len(dts)])
 
@@ -1242,10 +1460,12 @@ def run(R: Run):
         oracle_pair(R, ns, case, dtype, data, None, None, "sync", 0, tag="edge0")
 
     # 3. leading time axis, cross CRS, other resampling (oracle only)
-    extra_axes(R, ns, rng, R.pick(160, 1200))
+    extra_axes(R, ns, rng, R.pick(120, 1200))
     joint_compute(R, ns, rng, R.pick(70, 600), dts)
-    histories(R, ns, rng, R.pick(20, 120), dts)
-    cross_crs(R, ns, rng, R.pick(160, 1500))
+    histories(R, ns, rng, R.pick(16, 120), dts)
+    cross_crs(R, ns, rng, R.pick(120, 1500))
+    zoom_stream(R, ns, rng, R.pick(90, 900))
+    crs_churn(R, ns, rng, R.pick(180, 900))
 
     R.searchers.append(searcher)
     R.assumptions.append("rasterio/GDAL nearest-neighbour warp between grids of one CRS follows Model.C13.gdalNearest "
@@ -1285,6 +1505,11 @@ def replay(R: Run, rec) -> int:
     if not cj:
         print(rec.get("broken"))
         return 1
+    if cj.get("kind") == "zoom":
+        zoom_one(R, ns, cj)
+        for f in R.oracle_failures:
+            print("FAIL:", f["key"], f["what"])
+        return 1 if R.oracle_failures else 0
     if cj.get("kind") == "history":
         with fresh_pool() as pool:
             fresh = [f.result(timeout=600) for f in [pool.submit(_fresh_call, (cj, i)) for i in range(len(cj["calls"]))]]
